@@ -4,7 +4,8 @@ package main
 // tree under run.Repo on every run (go/parser):
 //
 //  1. every function of package blockchain that rolls a block back on the
-//     store (a call of RollbackBlock) calls UTXOCache.CleanCache() after it
+//     store (a call of RollbackBlock) calls UTXOCache.CleanCache()
+//     unconditionally (as a statement of the same statement list) after it
 //     and before the disconnect event is delivered (events.Notify);
 //  2. no function assigns to a field of a *DposBlock it obtained from
 //     GetBlock / GetDposBlockByHash (the decoded block cache hands out its own
@@ -78,39 +79,76 @@ func scanSource(e *env) *srcFacts {
 			if recv != "BlockChain" {
 				continue
 			}
-			var rb, clean, notify []token.Pos
-			ast.Inspect(fd.Body, func(n ast.Node) bool {
-				c, ok := n.(*ast.CallExpr)
-				if !ok {
+			// A rollback site is in order when, in the statement list that
+			// directly contains the RollbackBlock call, a later statement IS the
+			// call UTXOCache.CleanCache() (unconditional: not nested in an if /
+			// for / switch / closure) and comes before the first later statement
+			// that contains events.Notify.
+			found, okAll := false, true
+			var checkList func(list []ast.Stmt)
+			direct := func(st ast.Stmt, suffix string) bool { // call outside nested blocks of st
+				hit := false
+				ast.Inspect(st, func(n ast.Node) bool {
+					switch x := n.(type) {
+					case *ast.BlockStmt, *ast.CaseClause, *ast.CommClause, *ast.FuncLit:
+						return false
+					case *ast.CallExpr:
+						if strings.HasSuffix(exprString(x.Fun), suffix) {
+							hit = true
+						}
+					}
 					return true
-				}
-				switch s := exprString(c.Fun); {
-				case strings.HasSuffix(s, ".RollbackBlock"):
-					rb = append(rb, c.Pos())
-				case strings.HasSuffix(s, "UTXOCache.CleanCache"):
-					clean = append(clean, c.Pos())
-				case s == "events.Notify":
-					notify = append(notify, c.Pos())
-				}
-				return true
-			})
-			for _, r := range rb {
-				ok := false
-				firstNotify := token.Pos(1 << 40)
-				for _, n := range notify {
-					if n > r && n < firstNotify {
-						firstNotify = n
+				})
+				return hit
+			}
+			anywhere := func(st ast.Stmt, name string) bool {
+				hit := false
+				ast.Inspect(st, func(n ast.Node) bool {
+					if c, ok := n.(*ast.CallExpr); ok && exprString(c.Fun) == name {
+						hit = true
 					}
-				}
-				for _, c := range clean {
-					if c > r && c < firstNotify {
-						ok = true
+					return true
+				})
+				return hit
+			}
+			checkList = func(list []ast.Stmt) {
+				for i, st := range list {
+					if direct(st, ".RollbackBlock") {
+						found = true
+						ok := false
+						for _, later := range list[i+1:] {
+							if es, isExpr := later.(*ast.ExprStmt); isExpr {
+								if c, isCall := es.X.(*ast.CallExpr); isCall && strings.HasSuffix(exprString(c.Fun), "UTXOCache.CleanCache") {
+									ok = true
+									break
+								}
+							}
+							if anywhere(later, "events.Notify") {
+								break
+							}
+						}
+						okAll = okAll && ok
 					}
+					// nested statement lists
+					ast.Inspect(st, func(n ast.Node) bool {
+						switch x := n.(type) {
+						case *ast.BlockStmt:
+							checkList(x.List)
+							return false
+						case *ast.CaseClause:
+							checkList(x.Body)
+							return false
+						case *ast.CommClause:
+							checkList(x.Body)
+							return false
+						}
+						return true
+					})
 				}
-				if prev, seen := f.rollbackSites[fd.Name.Name]; seen {
-					ok = ok && prev
-				}
-				f.rollbackSites[fd.Name.Name] = ok
+			}
+			checkList(fd.Body.List)
+			if found {
+				f.rollbackSites[fd.Name.Name] = okAll
 			}
 		}
 	}
